@@ -1,7 +1,7 @@
 #!/bin/bash
 # quietness soak on the unchanged tree: every check, quick tier, many seeds; prints anything that is not exit 0
 SEEDS=${1:-"100 101 102 103 104 105 106 107 108 109"}; CHECKS=${2:-"C01 C02 C03 C04 C05 C06 C07 C08 C09 C10 C11 C12 C13 C14 C15 C16 C17 C18 C19 C20"}
-cd /verif
+cd "$(dirname "$0")/.."
 for s in $SEEDS; do for c in $CHECKS; do
   out=$(VERIF_SEED=$s ./vcheck $c quick 2>&1); rc=$?
   if [ $rc -ne 0 ]; then echo "=== $c seed=$s exit=$rc"; echo "$out" | grep -v "^   " | cut -c1-1200 | head -12; fi
